@@ -92,7 +92,7 @@ var c39States = map[int]string{nebula.Requested: "requested", nebula.Established
 var c39Types = map[int]string{nebula.TerminalType: "terminal", nebula.ForwardingType: "forwarding"}
 
 // project: relay records and tunnel peers of a node
-func (w *c39World) project(nd *vNode) (recs []map[string]any, tuns []string) {
+func (w *c39World) project(nd *vNode) (recs []map[string]any, tuns []string, ridx [][]int, live []int) {
 	st := nd.Ctrl.VerifProject()
 	seen := map[string]bool{}
 	var lidxs []uint32
@@ -114,6 +114,21 @@ func (w *c39World) project(nd *vNode) (recs []map[string]any, tuns []string) {
 		}
 	}
 	sort.Strings(tuns)
+	// HostMap.Relays: index -> the tunnel relayed packets carrying it are verified with (0: a tunnel the node no longer holds)
+	ridx = [][]int{}
+	for i, owner := range st.RelayIndexes {
+		tun := 0
+		if _, live := st.Tunnels[owner]; live {
+			tun = w.idxName(owner)
+		}
+		ridx = append(ridx, []int{w.idxName(i), tun})
+	}
+	sort.Slice(ridx, func(i, j int) bool { return ridx[i][0] < ridx[j][0] })
+	live = []int{}
+	for _, i := range lidxs {
+		live = append(live, w.idxName(i))
+	}
+	sort.Ints(live)
 	return
 }
 
@@ -159,9 +174,9 @@ func (w *c39World) deliver(d *vDatagram) {
 	w.Deliver(d)
 	out := nd.TakeUDP()
 	w.inflight = append(w.inflight, out...)
-	recs, tuns := w.project(nd)
+	recs, tuns, ridx, live := w.project(nd)
 	if !auth {
-		w.lines = append(w.lines, map[string]any{"ev": "Local", "n": nd.Name, "recs": recs, "tuns": tuns, "why": d.H.TypeName()})
+		w.lines = append(w.lines, map[string]any{"ev": "Local", "n": nd.Name, "recs": recs, "tuns": tuns, "ridx": ridx, "live": live, "why": d.H.TypeName()})
 		return
 	}
 	fwd := []string{}
@@ -178,13 +193,13 @@ func (w *c39World) deliver(d *vDatagram) {
 			}
 		}
 	}
-	w.lines = append(w.lines, map[string]any{"ev": "Recv", "n": nd.Name, "s": s, "typ": typ, "recs": recs, "tuns": tuns, "fwd": fwd})
+	w.lines = append(w.lines, map[string]any{"ev": "Recv", "n": nd.Name, "s": s, "typ": typ, "recs": recs, "tuns": tuns, "ridx": ridx, "live": live, "fwd": fwd})
 }
 
 func (w *c39World) local(nd *vNode, why string) {
 	w.inflight = append(w.inflight, nd.TakeUDP()...)
-	recs, tuns := w.project(nd)
-	w.lines = append(w.lines, map[string]any{"ev": "Local", "n": nd.Name, "recs": recs, "tuns": tuns, "why": why})
+	recs, tuns, ridx, live := w.project(nd)
+	w.lines = append(w.lines, map[string]any{"ev": "Local", "n": nd.Name, "recs": recs, "tuns": tuns, "ridx": ridx, "live": live, "why": why})
 }
 
 func TestVerif_C39(t *testing.T) {
@@ -256,6 +271,62 @@ func c39Drive(w *c39World, rnd *rand.Rand, steps, tr int, res *vResult) {
 	}
 	if tr%2 == 0 {
 		send(w.M, w.R.Vpn[0].Addr()) // M gets its tunnel with the relay
+	}
+	if tr%4 == 1 {
+		// tunnel churn on the relay: A forgets its tunnel with R without telling it and comes back, so that R holds two
+		// tunnels with A, the relay is negotiated again on the new one, and then R closes one of them while the other stays
+		pump := func() {
+			for round := 0; round < 12; round++ {
+				for k := 0; k < 40 && len(w.inflight) > 0; k++ {
+					d := w.inflight[0]
+					w.inflight = w.inflight[1:]
+					w.deliver(d)
+				}
+				if _, ok := w.A.Ctrl.VerifProject().Hosts[w.T.Vpn[0].Addr().String()]; ok && len(w.inflight) == 0 {
+					return
+				}
+				w.Advance(100 * time.Millisecond)
+				for _, nd := range w.sorted() {
+					w.local(nd, "tick")
+				}
+			}
+		}
+		pump()
+		if w.A.Ctrl.CloseTunnel(w.R.Vpn[0].Addr(), true) {
+			w.local(w.A, "close")
+			w.Advance(time.Second) // a handshake made in the same instant as the tunnel the relay holds would not be newer
+			for _, nd := range w.sorted() {
+				w.local(nd, "tick")
+			}
+			w.A.Ctrl.InjectLightHouseAddr(w.R.Vpn[0].Addr(), w.R.UDP) // closing a tunnel forgets what the lighthouse cache said
+			send(w.A, w.R.Vpn[0].Addr())                               // a new handshake with the relay, which still holds the old tunnel
+			pump()
+			if w.A.Ctrl.CloseTunnel(w.T.Vpn[0].Addr(), true) {
+				w.local(w.A, "close")
+			}
+			w.A.Ctrl.InjectRelays(w.T.Vpn[0].Addr(), []netip.Addr{w.R.Vpn[0].Addr()})
+			send(w.A, w.T.Vpn[0].Addr()) // the relay is negotiated again, now over the new tunnel
+			pump()
+			nA := 0
+			for _, t := range w.R.Ctrl.VerifProject().Tunnels {
+				if t.CertName == "A" {
+					nA++
+				}
+			}
+			if os.Getenv("VERIF_DEBUG") != "" {
+				b, _ := json.Marshal(w.R.Ctrl.VerifProject())
+				res.Extra[fmt.Sprintf("churn-debug-%d", tr)] = string(b)
+			}
+			if _, _, ri, _ := w.project(w.R); len(ri) > 0 && nA >= 2 {
+				res.Hit("churn:relay-indexes-before-close")
+			}
+			if w.R.Ctrl.CloseTunnel(w.A.Vpn[0].Addr(), true) {
+				w.local(w.R, "close")
+				if nA >= 2 {
+					res.Hit("churn:relay-closes-one-of-two")
+				}
+			}
+		}
 	}
 	for s := 0; s < steps; s++ {
 		r := rnd.Intn(100)
